@@ -43,17 +43,24 @@ func (fp *filesystemCachePersistor) getFilename(key string) string {
 
 func (fp *filesystemCachePersistor) Store(key string, reader io.Reader) (int64, error) {
 	filename := fp.getFilename(key)
-	var written int64
-	{
-		f, err := os.OpenFile(filename, os.O_CREATE|os.O_TRUNC|os.O_WRONLY, 0o600)
-		if err != nil {
-			return 0, err
-		}
-		defer f.Close()
-		written, err = io.Copy(f, reader)
-		if err != nil {
-			return written, err
-		}
+	// Never write the published file in place: readers hold it open, and a
+	// failed or concurrent Store must not become visible. Write a private temp
+	// file and publish it atomically.
+	f, err := os.CreateTemp(fp.root, filepath.Base(filename)+".*.tmp")
+	if err != nil {
+		return 0, err
+	}
+	tmpName := f.Name()
+	written, err := io.Copy(f, reader)
+	if closeErr := f.Close(); err == nil {
+		err = closeErr
+	}
+	if err == nil {
+		err = os.Rename(tmpName, filename)
+	}
+	if err != nil {
+		_ = os.Remove(tmpName)
+		return written, err
 	}
 	return written, nil
 }
@@ -85,8 +92,9 @@ func (fp *filesystemCachePersistor) Remove(key string) error {
 }
 
 func (fp *filesystemCachePersistor) RemoveAll() error {
-	glob := filepath.Join(fp.root, "*.cache")
-	files, _ := filepath.Glob(glob)
+	files, _ := filepath.Glob(filepath.Join(fp.root, "*.cache"))
+	tmpFiles, _ := filepath.Glob(filepath.Join(fp.root, "*.cache.*.tmp"))
+	files = append(files, tmpFiles...)
 	for _, file := range files {
 		err := os.Remove(file)
 		if err != nil {
